@@ -228,6 +228,12 @@ def gen_dfxp(rng, tag, text=None, nlang=None):
                 es, ev = spell_ttml(rng, b, feats)
                 end_alt = [int(ev)]
                 attr = f'begin="{bs}" end="{es}"'
+                if rng.random() < 0.25:
+                    # begin, end and a dur that says the same (only when the spelled values agree exactly)
+                    ds, dv = spell_ttml(rng, max(0, b - a), set())
+                    if bv + dv == ev:
+                        attr += f' dur="{ds}"'
+                        feats.add('end-and-dur')
             if rng.random() < 0.3:
                 attr = ' '.join(reversed(attr.split(' ')))
             empty = rng.random() < 0.06 and n > 1
